@@ -302,8 +302,8 @@ def py_eq(a, b):
             return _Cur.ctx.decide(Z3Ops.eq(a.t, b.t))
         # ASSUMPTION NAMES: symbolic parameter names differ from every string literal of sigtools
         return False
-    if ta is SymRef or tb is SymRef:
-        if ta is SymRef and tb is SymRef:
+    if isinstance(a, SymRef) or isinstance(b, SymRef):      # (subclasses: symbolic functions, objects, partials)
+        if isinstance(a, SymRef) and isinstance(b, SymRef):
             return _Cur.ctx.decide(a.t == b.t)
         return False
     if ta is SymVal or tb is SymVal:
